@@ -10,12 +10,52 @@ CH = ("bounded symbolic execution of the real lena code (CrossHair) with z3 deci
 
 # property -> (design section, level text, level note, technique)
 CHECKS = {
+    "C03": ("2/C03",
+            "Split.run / fill+compute / fill+request / __call__ and Zip are executed symbolically for "
+            "every branch list (8 branch kinds), bufsize, LenaStopFill index and flow of symbolic "
+            "ints inside the bound and compared with a scheduler transcribed from the docstring.",
+            "branch vocabulary of the harness (bare fill/request element so C16 does not leak in); "
+            "bounds in evidence.bounds.", CH),
+    "C06": ("2/C06",
+            "get_bin_on_value_1d is translated from its AST into SMT for every length 2..N "
+            "(index-in-range, unwinding and result obligations; exact-real and any-in-range-guess "
+            "modes); IEEE lemmas close the float gap; histogram.fill/get_bin_on_value/Histogram are "
+            "executed symbolically (CrossHair) for symbolic edges, coordinates and weights.",
+            "reals for ordering; L1b (monotone rounded subtraction) assumed at binary64, discharged "
+            "at binary16/32; the CH layer uses the linear-scan reference for the 1-d search (the "
+            "equivalence proved by layer K).",
+            "AST->SMT translation of the real kernel + z3 (engine K), z3 FP lemmas, and " + CH),
+    "C07": ("2/C07",
+            "intersection/difference/update_recursively/update_nested are executed symbolically on "
+            "structured symbolic dictionaries (shape codes + unconstrained integer leaves + None/''/{}) "
+            "against reference implementations and the algebraic laws; free-form dictionaries as "
+            "time-capped bug hunting.",
+            "keys {a,b}, depth <= 3; Python == on leaves.", CH),
+    "C08": ("2/C08",
+            "get_recursively/contains/str_to_dict/format_context/to_string/format_update_with/"
+            "UpdateContext/DeleteContext executed symbolically over contexts, 16 key paths in three "
+            "notations, every string over a 5..7 letter alphabet up to length 3..4, templates and the "
+            "full option matrix; free symbolic strings as bug hunting.",
+            "jinja2 runs untraced on realised inputs; leaves from a finite domain where rendering / "
+            "JSON realise them.", CH),
+    "C16": ("2/C16",
+            "FillRequest.run, fill/request under every request schedule (one symbolic bit per fill) "
+            "and Split around a FillRequest branch are executed symbolically against the per-block "
+            "reference; two known findings carved out (see known_findings.json).",
+            "BoundedList stub turns a never-returning call into a finite event; 'at most one block "
+            "buffered' is not claimed for fill() without request() (documented behaviour).", CH),
     "C17": ("2/C17",
             "Slice/Reverse/Chain/CountFrom/RunningChunkBy are executed symbolically against list "
             "slicing and itertools; every (start, stop, step, length) inside the bound is decided "
             "by the solver, sharded on start; each shard must be CONFIRMED (path tree exhausted).",
             "PyDeque model of collections.deque; itertools C functions trusted on realised "
             "arguments; bounds in evidence.bounds; outside them nothing is claimed.",
+            CH),
+    "C18": ("2/C18",
+            "Cache inside Sequence / hoisted by alter_sequence is executed symbolically over flows, "
+            "crash points (consumer stop, upstream/downstream exception at value k) and histories of "
+            "runs/recompute/drop on an in-memory file system.",
+            "FakeFS/FakeOS and a record-list model of the pickle stream; values assumed picklable.",
             CH),
 }
 
